@@ -665,4 +665,5 @@ func macroGen(tier string, r *rng, emit func(string)) {
 	for i := 0; i < n; i++ {
 		emit(genMacroSession(r))
 	}
+	macroGapFamilies(tier, r, emit) // macrofam2.go
 }
